@@ -71,3 +71,19 @@ Proof. split; [simpl; auto 10|reflexivity]. Qed.
 (* the guard *)
 Example guard_ex : LRawSet MAI t0 LKNaN (VNum 1) = None /\ LRawSet MAI t0 (LK (KInt 9)) (VNum 1) <> None.
 Proof. split; [reflexivity|discriminate]. Qed.
+
+(* hypothesis of next_under_remove: the hunt witness t={10,20,30,x=1,y=2}, table.remove(t) at key 3 *)
+From GL Require Import Table.TLib Table.TNextR.
+Definition tw := run MAI [OAppend (VNum 10); OAppend (VNum 20); OAppend (VNum 30); ORawSetString [120] (VNum 1); ORawSetString [121] (VNum 2)].
+Definition tw' := snd (tableRemove tw (Some 3)).
+Example travx_ex :
+  travx MAI true tw None
+        [(KInt 1, VNum 10, tw); (KInt 2, VNum 20, tw); (KInt 3, VNum 30, tw'); (KStr [120], VNum 1, tw'); (KStr [121], VNum 2, tw')].
+Proof.
+  eapply tx_cons; [reflexivity|apply ux_refl|].
+  eapply tx_cons; [reflexivity|apply ux_refl|].
+  eapply tx_cons; [reflexivity|eapply ux_remove with (pos := 3); apply ux_refl|].
+  eapply tx_cons; [reflexivity|apply ux_refl|].
+  eapply tx_cons; [reflexivity|apply ux_refl|].
+  apply tx_nil. intros _. reflexivity.
+Qed.
